@@ -4,9 +4,9 @@ EXPLANATION = ('Digit generation (uint_formatter, mini_format_int_s/u behind fro
                '32/64-bit width for the radices that need no division (2, 4, 8, 16, 32): digits valid for radix and case, no leading zeros, Horner evaluation equals the value, "-" exactly for negatives incl. the most negative value. '
                'The translator turns signed-overflow (nsw) and llvm.abs(INT_MIN) poison into assertions (ub=True), so the unsigned-negation idiom is checked for UB. from_int, ST::format and string_stream are compared character by character. '
                'The parsing direction runs to_* against a CONTRACT STUB of the strto* family (arbitrary value, arbitrary end position): value narrowing, ok, full_match, base forwarding; the 16-bit round trip uses a glibc-faithful strtol model instead.')
-BOUNDS = {'quick': '8/16-bit: all values, radices {2,3,7,8,10,16,36}; 32/64-bit: all values, radices {2,16}; cross-printer agreement: all 16-bit values (hex/oct/bin), decimal |v| <= 999; parsing: text <= 6 bytes; round trip: all shorts, bases {2,10,16,36}',
-          'thorough': 'every radix 2..36 and case for 8/16-bit; radices {2,4,8,16,32} for 32/64-bit; decimal cross-printer agreement for all 16-bit values; round trip for every base'}
-OUTSIDE = 'decimal and other non-power-of-two radices on 32/64-bit values (no verdict on any back end); the bodies of the C library strto* functions (contract stub); base 0 prefix detection'
+BOUNDS = {'quick': '8/16-bit: all values, radices {2,3,7,8,10,16,36}; 32/64-bit: all values, radices {2,16}; radix 10 at 32/64 bits: windows of 2^16 values at 0, the top of the type, 2^(bits-1) and around every power of ten; cross-printer agreement: all 16-bit values (hex/oct/bin), decimal |v| <= 999; parsing: text <= 6 bytes; round trip: all shorts, bases {2,10,16,36}',
+          'thorough': 'every radix 2..36 and case for 8/16-bit; radices {2,4,8,16,32} for 32/64-bit; radix 10 windows of 2^20 values, radices 3/7/36 windows of 2^16 values around every power of the radix; decimal cross-printer agreement for all 16-bit values; round trip for every base'}
+OUTSIDE = 'decimal and other non-power-of-two radices on 32/64-bit values OUTSIDE the windows (whole domain: no verdict on any back end, SAT or SMT, in 900 s); the bodies of the C library strto* functions (contract stub); base 0 prefix detection'
 import math
 def dg(bits, radix): return int(math.ceil(bits / math.log2(radix)))
 def queries():
@@ -23,13 +23,24 @@ def queries():
             quick = radix in (2, 16)
             qs.append(Q('uintfmt_%s_r%d' % (ut, radix), 'C12_int.c', 'numeric.cpp', defs={'OP': 1, 'UT': ut, 'BITS': bits, 'RADIX': radix, 'UPPER': 0, 'DIGITS': dg(bits, radix)}, ub=True,
                         unwind=dg(bits, radix) + 3, tiers=('quick', 'thorough') if quick else ('thorough',), bound={'type': ut, 'radix': radix, 'values': 'all 2^%d' % bits}, timeout=900))
-    # (1b) non-power-of-two radices at full 32/64-bit width, positional (division-chain) statement of the same canonical form (-DCHAIN)
+    # (1b) non-power-of-two radices at 32/64 bits: the whole domain gives no verdict on any back end (chained divisions), windows of 2^16 (quick) / 2^20
+    #      (thorough) consecutive values do in seconds.  Windows sit where digit generation can go wrong: zero upwards, the top of the type, the sign
+    #      boundary 2^(bits-1), and both sides of EVERY power of the radix (where the digit count changes).
+    def windows(bits, radix, w):
+        mx = (1 << bits) - 1; ws = [('low', 0, (1 << (w + 1)) - 1), ('top', mx - (1 << (w + 1)) + 1, mx), ('sign', (1 << (bits - 1)) - (1 << w), (1 << (bits - 1)) + (1 << w) - 1)]
+        k = 1
+        while radix ** k <= mx:
+            lo, hi = max(0, radix ** k - (1 << w)), min(mx, radix ** k + (1 << w) - 1)
+            if lo > ws[0][2]: ws.append(('p%d' % k, lo, hi))
+            k += 1
+        return ws
     for ut, bits in (('u32', 32), ('u64', 64)):
-        for radix in (10, 3, 7, 36):
-            quick = False
+        for radix, tiers_w in ((10, (('quick', 15), ('thorough', 19))), (3, (('thorough', 15),)), (7, (('thorough', 15),)), (36, (('thorough', 15),))):
             d = dg(bits, radix)
-            qs.append(Q('uintfmt_%s_r%d_chain' % (ut, radix), 'C12_int.c', 'numeric.cpp', defs={'OP': 1, 'UT': ut, 'BITS': bits, 'RADIX': radix, 'UPPER': 0, 'DIGITS': d, 'CHAIN': 1}, ub=True,
-                        unwind=d + 3, tiers=('quick', 'thorough') if quick else ('thorough',), bound={'type': ut, 'radix': radix, 'values': 'all 2^%d' % bits, 'oracle': 'division chain'}, timeout=900))
+            for tier, w in tiers_w:
+                for wn, lo, hi in windows(bits, radix, w):
+                    qs.append(Q('uintfmt_%s_r%d_win_%s_w%d' % (ut, radix, wn, w + 1), 'C12_int.c', 'numeric.cpp', defs={'OP': 1, 'UT': ut, 'BITS': bits, 'RADIX': radix, 'UPPER': 0, 'DIGITS': d, 'VLO': '%dULL' % lo, 'VHI': '%dULL' % hi}, ub=True,
+                                unwind=d + 3, tiers=(tier,), bound={'type': ut, 'radix': radix, 'values': '[%d, %d]' % (lo, hi)}, timeout=600 if tier == 'quick' else 1800))
     # (2) from_int / from_uint
     FT = [('short', 16, 1), ('ushort', 16, 0), ('int', 32, 1), ('uint', 32, 0), ('long', 64, 1), ('ulong', 64, 0), ('llong', 64, 1), ('ullong', 64, 0)]
     for ft, bits, sg in FT:
@@ -39,6 +50,23 @@ def queries():
             d = dg(bits, radix)
             qs.append(Q('from_%s_r%d%s' % (ft, radix, 'U' if upper else ''), 'C12_int.c', 'numeric.cpp', config='small', defs={'OP': 2, 'FT': ft, 'BITS': bits, 'SIGNED': sg, 'RADIX': radix, 'UPPER': upper, 'DIGITS': d}, ub=True,
                         unwind=d + 5, heap_cap=d + 4, tiers=('quick', 'thorough') if quick else ('thorough',), bound={'type': ft, 'radix': radix, 'values': 'all 2^%d' % bits}, timeout=900))
+    # (2b) decimal from_int / from_uint at 32/64 bits on windows of 2^16 values: both ends of the type (incl. the most negative value), around zero, around +-10^9 / +-10^18
+    def swin(bits, sg):
+        if sg:
+            mn, mx = -(1 << (bits - 1)), (1 << (bits - 1)) - 1; p = 10 ** (9 if bits == 32 else 18)
+            return [('min', mn, mn + 65535), ('zero', -32768, 32767), ('max', mx - 65535, mx), ('negp', -p - 32768, -p + 32767), ('posp', p - 32768, p + 32767)]
+        mx = (1 << bits) - 1; p = 10 ** (9 if bits == 32 else 19)
+        return [('zero', 0, 65535), ('max', mx - 65535, mx), ('posp', p - 32768, p + 32767)]
+    def cint(v, sg): return ('(%dLL - 1)' % (v + 1)) if v < 0 and sg else (('%dLL' % v) if sg else ('%dULL' % v))
+    for ft, bits, sg in FT:
+        if bits == 16: continue
+        for wn, lo, hi in swin(bits, sg):
+            d = dg(bits, 10)
+            defs = {'OP': 2, 'FT': ft, 'BITS': bits, 'SIGNED': sg, 'RADIX': 10, 'UPPER': 0, 'DIGITS': d}
+            defs.update({'VMIN': cint(lo, 1), 'VMAX': cint(hi, 1)} if sg else {'VMINU': cint(lo, 0), 'VMAX': cint(hi, 0)})
+            quick = ft in ('int', 'uint', 'llong', 'ullong')
+            qs.append(Q('from_%s_r10_win_%s' % (ft, wn), 'C12_int.c', 'numeric.cpp', config='small', defs=defs, ub=True, unwind=d + 5, heap_cap=d + 4, tiers=('quick', 'thorough') if quick else ('thorough',),
+                        bound={'type': ft, 'radix': 10, 'values': '[%d, %d]' % (lo, hi)}, timeout=900))
     # (3) cross-printer agreement (the three printers are separate code)
     M = ('core', 'libc', 'strtol')
     for ft, bits, sg, ssft in (('short', 16, 1, 'int'), ('ushort', 16, 0, 'uint'), ('int', 32, 1, 'int'), ('llong', 64, 1, 'llong'), ('ullong', 64, 0, 'ullong')):
@@ -55,6 +83,15 @@ def queries():
                 qs.append(Q('agree_%s_dec_small' % ft, 'C12_int.c', 'numeric.cpp', config='small', defs=dq, models=M, ub=True, unwind=10, heap_cap=16, object_bits=10, tiers=('quick',), bound={'type': ft, 'radix': 10, 'values': '|v| <= 999'}, timeout=900))
             qs.append(Q('agree_%s_r%d' % (ft, radix), 'C12_int.c', 'numeric.cpp', config='small', defs=defs, models=M, ub=True, unwind=d + 6, heap_cap=2 * d + 8, object_bits=10,
                         tiers=('quick', 'thorough') if quick else ('thorough',), bound={'type': ft, 'radix': radix, 'values': 'all 2^%d' % bits}, timeout=900 if quick else 3000))
+    # (3b) decimal cross-printer agreement (from_int == ST::format == string_stream) at 32/64 bits on the same windows
+    for ft, bits, sg, ssft in (('int', 32, 1, 'int'), ('llong', 64, 1, 'llong'), ('ullong', 64, 0, 'ullong')):
+        for wn, lo, hi in swin(bits, sg):
+            d = dg(bits, 10)
+            defs = {'OP': 3, 'FT': ft, 'SSFT': ssft, 'BITS': bits, 'SIGNED': sg, 'RADIX': 10, 'UPPER': 0, 'DIGITS': d + 1, 'FMTNAME': 0, 'WITH_SS': 1}
+            defs.update({'VMIN': cint(lo, 1), 'VMAX': cint(hi, 1)} if sg else {'VMINU': cint(lo, 0), 'VMAX': cint(hi, 0)})
+            quick = wn in ('min', 'max', 'zero')
+            qs.append(Q('agree_%s_dec_win_%s' % (ft, wn), 'C12_int.c', 'numeric.cpp', config='small', defs=defs, models=M, ub=True, unwind=d + 6, heap_cap=2 * d + 8, object_bits=10,
+                        tiers=('quick', 'thorough') if quick else ('thorough',), bound={'type': ft, 'radix': 10, 'values': '[%d, %d]' % (lo, hi)}, timeout=900))
     # (6) the most negative values, concretely, with overflow checks on
     for ft, ext, d in (('int', '(-2147483647 - 1)', 11), ('long', '(-9223372036854775807LL - 1)', 20), ('llong', '(-9223372036854775807LL - 1)', 20)):
         qs.append(Q('extreme_%s' % ft, 'C12_int.c', 'numeric.cpp', config='small', defs={'OP': 6, 'FT': ft, 'EXTREME': ext, 'DIGITS': d}, models=M, ub=True, unwind=d + 6, heap_cap=48, object_bits=10, bound={'value': ext}))
